@@ -418,6 +418,11 @@ def main():
     M('param-storage-strings', "const string[] gc = [\"ab\", \"c\"];\nempty all(const string[] a) { for (int i = 0; i < a.length; i += 1) { write(a[i]); write(','); } }\n"
       "empty @is_you(int x) { string[] st = [\"x\", \"yz\"]; all(st); all(gc); all([\"lit\"]); st[0] = \"X\"; all(st); }\n")
     M('param-storage-entry-args', "empty show(const byte[] a) { write(a); }\nempty @is_you(const byte[] xs) { byte[] st = ['s']; show(st); show(xs); show(\"k\"); }\n", xs=2)
+    # empty constants of every kind reach the output as nothing at all (and the program goes on)
+    M('empty-constants', "const byte[] ke = [];\nconst int[] ie = [];\nconst bool[] be = [];\nconst string se = \"\";\nconst string[] sa = [];\nempty show(const byte[] a) { write('<'); write(a); write('>'); }\n"
+      "empty @is_you(int i) { write('['); write(ke); write(']'); writeln(ke); const byte[] le = []; write(le); show(le); show(ke); show(\"\"); show(\"\" is byte[]); show(se is byte[]); write(se); write(\"\"); "
+      "sleep(ke.length + ie.length + be.length + se.length + sa.length); if (i > 0) { sleep(ie[i]); } write('.'); }\n")
+    M('empty-then-data', "const byte[] ke = [];\nconst byte[] kd = ['d'];\nconst string s0 = \"\";\nconst string s1 = \"x\";\nempty @is_you(int i) { write(ke); write(kd); write(s0); write(s1); write(ke); writeln(s0); write([\"\", \"y\"][i]); }\n")
     mtasks = [case_to_task(c.with_(word=W, stack=96)) for c in multi for W in ([2, 4] if quick else [2, 3, 4, 8])]
     run_tasks(rep, mtasks, worker=check_case, limit=600, sample_every=3)
     # (C) CrossHair on the escaping function
